@@ -15,6 +15,7 @@ for d in sorted(glob.glob(os.path.join(ROOT, "seeded", "*", "*")), key=lambda p:
     if res is None: verdict, obl = "not run", ""
     else:
         verdict = "caught" if res.get("caught") else "MISSED"
+        if meta.get("superseded"): verdict = "no longer a breaking change (defect it exposed was repaired)"
         fo = [o for o in res.get("failed_obligations", []) if "#kf-" not in o]
         obl = (fo[0] if fo else "").replace("|", "/")
     rows.append(f"| {pid}/{n} | {what} | {verdict} | `{obl}` |")
